@@ -271,6 +271,10 @@ def monitor_c01(sc, obs):
     return v
 
 
+class _Ambiguous(Exception):
+    pass
+
+
 class _Ref:
     """Abstract spec of C07: every event is pending(time) / paused(remaining) / cancelled flag; independent of the queue layout."""
 
@@ -305,6 +309,10 @@ class _Ref:
         if not pend:
             raise IndexError()
         k, e = min(pend, key=lambda p: _key(p[1]))
+        if sum(1 for _, e2 in pend if _key(e2) == _key(e)) > 1:
+            # two pending events agree on time, priority, weight and asset id: neither C01 nor C07 says which one goes first
+            # (the implementation serves them in the order of their last insertion); the specification abstains
+            raise _Ambiguous()
         del self.ev[k]
         self.now = e['time']
         if e['cancelled']:
@@ -348,7 +356,7 @@ def monitor_c07(sc, obs):
                 ref.run(op[1])
         except (ValueError, IndexError):
             pass
-        except TooLong:
+        except (TooLong, _Ambiguous):
             return v
         pend_ref = sorted((k, e['time'], e['cancelled']) for k, e in ref.ev.items() if e['remaining'] is None)
         pend_imp = sorted((e['eid'], e['time'], e['cancelled']) for e in o['queue'])
